@@ -42,12 +42,21 @@ class Prop(PropBase):
                 # DIFOP plan: kinds in order; MSOP packets between them
                 plan = rng.choice([
                     ['valid'], ['ff', 'valid'], ['range', 'valid', 'range'], ['valid', 'valid2'], ['edge', 'valid2'], ['dup'],
-                    ['ff', 'range', 'valid', 'valid2', 'ff'], ['valid', 'ff', 'valid2'], ['range'], ['edge', 'ff']])
+                    ['ff', 'range', 'valid', 'valid2', 'ff'], ['valid', 'ff', 'valid2'], ['range'], ['edge', 'ff'],
+                    # packets that are not "of the right length and identifier" but carry a perfectly good table: they must not open the gate
+                    ['badid', 'valid2'], ['badid'], ['badlen', 'valid2'], ['badid', 'badlen', 'valid', 'badid'], ['badid', 'valid2']])
+                idpos = 2 + (r * 5 + len(scn_all)) % (len(l.difop_id) - 2)      # every identifier byte behind the two dispatch bytes in turn
                 for kind in plan:
                     for k in range(rng.choice([0, 1, 2])):
                         s.pkt(0, ms.msop(gap_prob=0.05))
-                    kd, vert, horiz, raw = scen.cali_table(rng, l, 'valid' if kind == 'valid2' else kind)
-                    s.pkt(0, l.difop(dual=dual, rpm=rng.choice([300, 600, 1200]), fov=rng.choice([(0, 36000), (4500, 31500)]), vert=vert, horiz=horiz, raw_cali=raw))
+                    kd, vert, horiz, raw = scen.cali_table(rng, l, 'valid' if kind in ('valid2', 'badid', 'badlen') else kind)
+                    dp = l.difop(dual=dual, rpm=rng.choice([300, 600, 1200]), fov=rng.choice([(0, 36000), (4500, 31500)]), vert=vert, horiz=horiz, raw_cali=raw)
+                    if kind == 'badid':
+                        b = bytearray(dp); b[idpos] ^= rng.choice([0x01, 0x80, 0xFF]); dp = bytes(b)
+                        idpos = 2 + (idpos - 1) % (len(l.difop_id) - 2)
+                    elif kind == 'badlen':
+                        dp = dp[:-1] if rng.random() < 0.5 else dp + b'\x00'
+                    s.pkt(0, dp)
                 for k in range(rng.choice([2, 3])):
                     s.pkt(0, ms.msop(gap_prob=0.1))
                 if rng.random() < 0.5:
